@@ -248,7 +248,11 @@ func observeScenario(c ocfg) *mcx.Scenario {
 
 func addObserve(r *ev.Run, scs *[]*mcx.Scenario) {
 	for _, con := range []bool{false, true} {
-		*scs = append(*scs, observeScenario(ocfg{CON: con, Notifs: ev.Pick(r, 1, 2), Faults: ev.Pick(r, 1, 2), Size: 40}))
+		*scs = append(*scs, observeScenario(ocfg{CON: con, Notifs: ev.Pick(r, 1, 2), Faults: 1, Size: 40}))
+		if r.Thorough() {
+			// (two notifications with two faults are > 15 M executions per variant: the second fault is explored with one notification)
+			*scs = append(*scs, observeScenario(ocfg{CON: con, Notifs: 1, Faults: 2, Size: 40}))
+		}
 	}
 	*scs = append(*scs, observeScenario(ocfg{CON: false, Notifs: 2, Faults: ev.Pick(r, 0, 1), Size: 33}))
 }
